@@ -92,7 +92,8 @@ def build(shape, b: R.Builder):
         cur = p_in
         for i in range(shape["k"]):
             # "replica": every step after the first runs on a second deployment, inputs staged read-only
-            cur = b.exec_step(f"/A{i}", {"x": cur}, site_b=bool(shape.get("replica")) and i > 0)
+            cur = b.exec_step(f"/A{i}", {"x": cur}, site_b=bool(shape.get("replica")) and i > 0,
+                              out_kind=shape.get("out", "file"), union=bool(shape.get("union")))
         return p_in, None, cur
     if k in ("sg", "sg2"):
         n, m = shape["n"], shape["m"]
